@@ -21,7 +21,7 @@ var Check = &ev.Check{
 	ID:    "C05",
 	Level: "exploration",
 	Rule: "reader schema R = every struct-like type of the cell universe; writer encodings = the reference encoding of every valid value with <=1 deviating field, transformed by every single evolution step (thorough: every pair of steps) at every applicable position: " +
-		"inject one well-formed foreign field (14 shapes: bool, i32, i64, double, binary, nested struct, list<struct>, map<binary,list<i16>>, set<i32>, structs nested 70 and 300 deep, lists nested 100 deep, a 200 kB binary, a 20 000-element list) with an unknown id (0, -1, max+1, 32767, a gap) or a known id under another wire type, at every field boundary; remove a field; retype a field to two other wire types; reverse field order; " +
+		"inject one well-formed foreign field (14 shapes: bool, i32, i64, double, binary, nested struct, list<struct>, map<binary,list<i16>>, set<i32>, structs nested 70 and 300 deep, lists nested 100 deep, a 200 kB binary, a 20 000-element list) with an unknown id (0, -1, max+1, 32767, a gap) or a known id under another wire type, at every field boundary; remove a field; retype a field to two other wire types; add a retyped second occurrence of a present field before it, after it and at the end; reverse field order; " +
 		"and the same steps inside every nested struct value (direct field, list/set element, map value) down to depth 2. Both decoding paths of R (stream path whole and 1-byte reads). " +
 		"Oracle (reference evolved decode): unknown-id and wrong-wire-type fields are ignored, absent optionals unset or default; decoding fails iff a required field without default is absent or mistyped (recursively), or a union does not end with exactly one member. " +
 		"A case is (type, transformed encoding); non-trivial = encodings that contain at least one foreign, retyped or removed field.",
@@ -162,6 +162,22 @@ func steps(s tbin.Value, declared map[int16]tbin.Type, yield func(desc string, o
 			fs := clone(s.Fields)
 			fs[i] = tbin.Field{ID: s.Fields[i].ID, V: sh}
 			yield(fmt.Sprintf("retype field id=%d to shape#%d", s.Fields[i].ID, si), tbin.Value{T: tbin.Struct, Fields: fs})
+		}
+	}
+	// a second, retyped occurrence of a field that is present: before it, right after it and at the end
+	// (an occurrence of the wrong wire type is skipped like an unknown field wherever it stands)
+	for i := range s.Fields {
+		for si, sh := range foreignShapes() {
+			if sh.T == s.Fields[i].V.T {
+				continue
+			}
+			dup := tbin.Field{ID: s.Fields[i].ID, V: sh}
+			yield(fmt.Sprintf("retyped duplicate of id=%d (shape#%d) before it", dup.ID, si), tbin.Value{T: tbin.Struct, Fields: append(append(clone(s.Fields[:i]), dup), s.Fields[i:]...)})
+			yield(fmt.Sprintf("retyped duplicate of id=%d (shape#%d) after it", dup.ID, si), tbin.Value{T: tbin.Struct, Fields: append(append(clone(s.Fields[:i+1]), dup), s.Fields[i+1:]...)})
+			if i+1 < len(s.Fields) {
+				yield(fmt.Sprintf("retyped duplicate of id=%d (shape#%d) at the end", dup.ID, si), tbin.Value{T: tbin.Struct, Fields: append(clone(s.Fields), dup)})
+			}
+			break
 		}
 	}
 	if len(s.Fields) > 1 {
